@@ -1018,3 +1018,61 @@ def trace_games(res, games, kind_on_mismatch, label):
         if bad:
             res.fail(kind_on_mismatch, "%s: the library's calls of the gamma callback (its internal state: inflation, rank sort, dense ranks, "
                      "aggregates, c / c_iq, pairing) differ from the model's: %s" % (label, bad), dict(type="game", game=g))
+
+
+# ---------------------------------------------------------------- the optimised interpreter
+_OPT_CHILD = """
+import sys, json, hashlib
+sys.path.insert(0, %(harness)r)
+import core, gen, random
+print(json.dumps(dict(optimize=sys.flags.optimize, rows=core.option_battery(%(seed)d))))
+"""
+
+
+def option_battery(seed):
+    """a fixed battery of rate calls exercising model-level and per-call tau / limit_sigma on all five models -> one digest per call"""
+    import random as _r, gen as _gen
+    _gen._CYCLE[0] = 0
+    rng = _r.Random(seed)
+    rows = []
+    for k in range(60):
+        g = _gen.gen_game(rng, kind=KINDS[k % 5], stratum=("typical", "floor", "newcomers")[k % 3], options=True)
+        g["ls"] = (k % 2 == 0)
+        g["tau"] = max(g["tau"], g["beta"] / 10)
+        g["_no_history"] = True
+        try:
+            model = MODEL_CLS[g["kind"]](beta=g["beta"], kappa=g["kappa"], tau=g["tau"], limit_sigma=g["ls"])
+            teams = [[model.rating(mu=m, sigma=s_) for (m, s_) in t] for t in g["teams"]]
+            kw = {}
+            if g["oc"][0] == "R":
+                kw["ranks"] = list(g["oc"][1])
+            elif g["oc"][0] == "S":
+                kw["scores"] = list(g["oc"][1])
+            if g["tauopt"] is not None:
+                kw["tau"] = g["tauopt"]
+            if g["lsopt"] is not None:
+                kw["limit_sigma"] = g["lsopt"]
+            out = model.rate(teams, **kw)
+            rows.append(hashlib.sha1(repr([[(p.mu, p.sigma) for p in t] for t in out]).encode()).hexdigest()[:12])
+        except Exception as e:  # noqa: BLE001
+            rows.append("EXC:" + type(e).__name__)
+    return rows
+
+
+def optimised_interpreter(res, prop):
+    """the same battery in a child interpreter started with -O (assert statements and `if __debug__:` blocks removed): bit-identical"""
+    import subprocess
+    here = option_battery(res.seed)
+    env = dict(os.environ, OPENSKILL_REPO=REPO)
+    p = subprocess.run([sys.executable, "-B", "-O", "-c", _OPT_CHILD % dict(harness=os.path.dirname(os.path.abspath(__file__)), seed=res.seed)],
+                       stdout=subprocess.PIPE, stderr=subprocess.PIPE, env=env)
+    if p.returncode != 0:
+        res.fail("property", "%s: the library cannot be used under python -O: %s" % (prop, p.stderr.decode()[-300:]), dict(type="optflag"))
+        return
+    body = json.loads(p.stdout.decode().strip().split("\n")[-1])
+    res.count("battery_calls_under_python_O", len(body["rows"]))
+    bad = [i for i, (a, b) in enumerate(zip(here, body["rows"])) if a != b]
+    if bad or len(here) != len(body["rows"]):
+        res.fail("property", "%s: under python -O (assert statements removed) rate returns other numbers than in the default interpreter for %d of %d calls "
+                 "with model-level / per-call tau and limit_sigma (first: call %s: %s vs %s)" % (prop, len(bad), len(here), bad[:1], body["rows"][bad[0]] if bad else "-", here[bad[0]] if bad else "-"),
+                 dict(type="optflag"))
